@@ -274,6 +274,10 @@ pub struct FaultCase {
     /// the failing worker lingers at the fault point for this long before it dies
     #[serde(default)]
     pub fault_delay_ms: u32,
+    /// another fault point at which the thread that reaches it first is held up for so many ms and
+    /// then carries on (the other worker is slow - descheduled - while this one fails)
+    #[serde(default)]
+    pub stall: Option<(String, u32)>,
 }
 
 pub const POLLER_POINTS: [&str; 7] = ["poller:startup", "poller:loop_top", "poller:after_clock_read", "poller:before_send", "poller:after_send", "poller:before_recv", "poller:after_recv"];
@@ -349,6 +353,9 @@ pub fn c15_child(spec_json: &str) -> i32 {
                 Ok(crate::daemon::wire_reply(&r, 1))
             })));
         }
+    }
+    if let Some((name, ms)) = &case.stall {
+        dv::arm_stall(name, Duration::from_millis(*ms as u64));
     }
     if let Some((name, nth, panic)) = &case.fault {
         dv::arm_fault_delayed(name, *nth, if *panic { dv::FaultKind::Panic } else { dv::FaultKind::Return }, Duration::from_millis(case.fault_delay_ms as u64));
@@ -483,6 +490,10 @@ fn check_c15_case(case: &FaultCase, _env: &mut Env) -> Verdict {
         ChronyMode::Silent => v.label("chronyd-silent"),
         ChronyMode::Answering => v.label("chronyd-answering"),
     }
+    if case.stall.is_some() {
+        v.label("other-worker-held-up");
+        v.nontrivial = true;
+    }
     if case.natural != Natural::None {
         v.label("natural-fault");
         v.nontrivial = true;
@@ -526,8 +537,9 @@ fn c15_strategy() -> BoxedStrategy<FaultCase> {
         prop_oneof![Just(ChronyMode::Absent), Just(ChronyMode::Silent), Just(ChronyMode::Answering)],
         prop_oneof![3 => Just(0u32), 1 => 0u32..900],
         prop_oneof![3 => Just(0u32), 1 => 0u32..3000],
+        prop_oneof![2 => Just(None), 1 => (0usize..11, 0u32..1500).prop_map(Some)],
     )
-        .prop_map(|((name, can_return), nth, panic, chrony, reply_delay_ms, fault_delay_ms)| {
+        .prop_map(|((name, can_return), nth, panic, chrony, reply_delay_ms, fault_delay_ms, stall)| {
             // keep the fault point reachable: in_clock_update needs reports, in_missing_update outages
             let chrony = match name.as_str() {
                 "writer:in_clock_update" => ChronyMode::Answering,
@@ -535,14 +547,20 @@ fn c15_strategy() -> BoxedStrategy<FaultCase> {
                 _ => chrony,
             };
             let nth = if name.ends_with(":startup") || name == "writer:after_new" { 0 } else { nth };
-            (name, can_return, nth, panic, chrony, reply_delay_ms, fault_delay_ms)
+            // the other worker is held up at one of its own points
+            let stall = stall.map(|(i, ms): (usize, u32)| {
+                let other: Vec<&str> = if name.starts_with("poller") { WRITER_POINTS_LOOP.to_vec() } else { POLLER_POINTS.to_vec() };
+                (other[i % other.len()].to_string(), ms)
+            });
+            (name, can_return, nth, panic, chrony, reply_delay_ms, fault_delay_ms, stall)
         })
-        .prop_map(|(name, can_return, nth, panic, chrony, reply_delay_ms, fault_delay_ms)| FaultCase {
+        .prop_map(|(name, can_return, nth, panic, chrony, reply_delay_ms, fault_delay_ms, stall)| FaultCase {
             fault: Some((name, nth, panic || !can_return)),
             chrony,
             natural: Natural::None,
             reply_delay_ms,
             fault_delay_ms,
+            stall,
         })
         .boxed()
 }
@@ -552,7 +570,7 @@ impl Property for C15 {
     const ID: &'static str = "C15";
     const LEVEL: &'static str = "fault_enumeration";
     fn rule() -> String {
-        "enumerated: worker in {poller, writer} x named fault point (poller: startup, loop top, after the clock read, before/after send, before/after recv; writer: startup, after ShmWriter::new, loop top, after a message, inside process_clock_update / process_missing_clock_update, before/after the segment write) x n-th time the point is reached (0,1 quick; 0,1,2 thorough) x kind (panic; early return where that ends the thread) x chronyd (absent; silent = 3 s of timeouts per query; answering), plus a writer that lingers 0.5-2.5 s at the fault point before dying during a chronyd outage (the poller is then in the middle of its iteration, not waiting on its mailbox), plus an answering chronyd whose replies take 150-950 ms (quick: 700 ms) x five fault points, plus hook-free natural faults (/run/clockbound is a regular file; PHC error-bound file unparsable from the start / turning unparsable after 1.5 s). Generated in addition: random combinations with random reply delays. Each case: thread_manager::run() in a child process inside a private mount namespace. Oracle: run() returns within 12 s of the failure (legitimate worst case ~4 s: 1 s poll sleep + 3 x 1 s chrony timeouts) and no worker thread is left alive; a child still running 13 s after the failure (or 47 s after start when the failure never happens) is killed and reported as lingering. Non-trivial: iteration >= 1, an answering chronyd, or a natural fault.".into()
+        "enumerated: worker in {poller, writer} x named fault point (poller: startup, loop top, after the clock read, before/after send, before/after recv; writer: startup, after ShmWriter::new, loop top, after a message, inside process_clock_update / process_missing_clock_update, before/after the segment write) x n-th time the point is reached (0,1 quick; 0,1,2 thorough) x kind (panic; early return where that ends the thread) x chronyd (absent; silent = 3 s of timeouts per query; answering), plus a writer that lingers 0.5-2.5 s at the fault point before dying during a chronyd outage (the poller is then in the middle of its iteration, not waiting on its mailbox), plus an answering chronyd whose replies take 150-950 ms (quick: 700 ms) x five fault points, plus one worker failing at start-up / early while the other is held up for 400 ms (thorough: 50-1500 ms) at one of its own points, plus hook-free natural faults (/run/clockbound is a regular file; PHC error-bound file unparsable from the start / turning unparsable after 1.5 s). Generated in addition: random combinations with random reply delays. Each case: thread_manager::run() in a child process inside a private mount namespace. Oracle: run() returns within 12 s of the failure (legitimate worst case ~4 s: 1 s poll sleep + 3 x 1 s chrony timeouts) and no worker thread is left alive; a child still running 13 s after the failure (or 47 s after start when the failure never happens) is killed and reported as lingering. Non-trivial: iteration >= 1, an answering chronyd, or a natural fault.".into()
     }
     fn assumptions() -> Vec<String> {
         vec!["promptness is decided with a 12 s deadline (3x the legitimate worst case); interleavings of the death notifications are those the OS scheduler produces plus the injected reply delays".into()]
@@ -588,6 +606,7 @@ impl Property for C15 {
                         natural: Natural::None,
                         reply_delay_ms: 0,
                         fault_delay_ms: delay,
+                        stall: None,
                     });
                 }
             }
@@ -602,7 +621,34 @@ impl Property for C15 {
                     natural: Natural::None,
                     reply_delay_ms: delay,
                     fault_delay_ms: 0,
+                    stall: None,
                 });
+            }
+        }
+        // one worker fails at start-up or early while the other one is slow to start (or slow at a
+        // later point): notifications then arrive before / while the survivor sets itself up
+        for (fault, nth, stall_at) in [
+            ("poller:startup", 0u32, "writer:startup"),
+            ("poller:startup", 0, "writer:after_new"),
+            ("poller:loop_top", 0, "writer:startup"),
+            ("poller:after_clock_read", 0, "writer:after_new"),
+            ("poller:loop_top", 1, "writer:loop_top"),
+            ("writer:startup", 0, "poller:startup"),
+            ("writer:after_new", 0, "poller:startup"),
+            ("writer:after_new", 0, "poller:loop_top"),
+            ("writer:loop_top", 0, "poller:after_clock_read"),
+        ] {
+            for ms in if tier == Tier::Quick { vec![400u32] } else { vec![50u32, 400, 1500] } {
+                for chrony in [ChronyMode::Absent, ChronyMode::Answering] {
+                    cases.push(FaultCase {
+                        fault: Some((fault.to_string(), nth, true)),
+                        chrony,
+                        natural: Natural::None,
+                        reply_delay_ms: 0,
+                        fault_delay_ms: 0,
+                        stall: Some((stall_at.to_string(), ms)),
+                    });
+                }
             }
         }
         for chrony in [ChronyMode::Absent, ChronyMode::Answering, ChronyMode::Silent] {
@@ -624,6 +670,7 @@ impl Property for C15 {
                             natural: Natural::None,
                             reply_delay_ms: 0,
                             fault_delay_ms: 0,
+                            stall: None,
                         });
                     }
                 }
@@ -644,6 +691,7 @@ impl Property for C15 {
                         natural: Natural::None,
                         reply_delay_ms: 0,
                         fault_delay_ms: 0,
+                        stall: None,
                     });
                 }
             }
@@ -655,6 +703,7 @@ impl Property for C15 {
                 natural: nat,
                 reply_delay_ms: 0,
                 fault_delay_ms: 0,
+                stall: None,
             });
         }
         let results: Vec<(FaultCase, Verdict)> = std::thread::scope(|s| {
